@@ -66,7 +66,8 @@ def deep_ok(n=100):
 
 
 BAD_QUERIES = {
-    "syntax": ["$[", "$.a.", "$[?@.a ==]", "$..", "$[1:2 3]", "$.a b", "$['a", "$[?(@.a]", "$[?@.a==01]", "$[?!!@.a]", " $", "$ ", "$[?@.a=1]", "$[,]", "$.\t"],
+    "syntax": ["$[", "$.a.", "$[?@.a ==]", "$..", "$[1:2 3]", "$.a b", "$['a", "$[?(@.a]", "$[?@.a==01]", "$[?!!@.a]", " $", "$ ", "$[?@.a=1]", "$[,]", "$.\t",
+               "", "$..\n[0]", "$.\na", "$..\r\n*", "$[?@.a ==\n]", "$\n\n!", "$['a\nb']", "$[\n\x0c]", "\n", "$.a\n.\nb.", "$[?@.a == 'x\ny']"],
     "type": ["$[?length(@.a, @.b)]", "$[?count(@.a) ]x", "$[?length(@.*)==1]", "$[?count(1)==1]", "$[?match(@.a)]", "$[?value(@.a)]", "$[?@.* == 1]", "$[?length(@.a)]"],
     "index": ["$[9007199254740992]", "$[-9007199254740992]", "$[1:9007199254740992]", "$[::99999999999999999999]"],
     "name": ["$[?nope(@)]", "$[?undefined_fn(@.a) == 1]", "$[?foo()]"],
